@@ -19,6 +19,7 @@ import (
 	"encoding/json"
 	"fmt"
 	"os"
+	"strconv"
 	"strings"
 	"testing"
 	"time"
@@ -82,6 +83,16 @@ func vcsvField(f string, sep string, only bool) string {
 //	lf       records end with \n
 //	crlf     records end with \r\n
 //	nofinal  records are separated by \n, the last one has no line end
+// vcsvSep: a separator outside ASCII is spelled by its code point in the scenario ("U+00A6")
+func vcsvSep(sep string) string {
+	if strings.HasPrefix(sep, "U+") {
+		if n, e := strconv.ParseInt(sep[2:], 16, 32); e == nil {
+			return string(rune(n))
+		}
+	}
+	return sep
+}
+
 func vcsvRender(s vcsvScenario, render string) string {
 	eol := "\n"
 	if render == "crlf" {
@@ -142,6 +153,7 @@ func vcsvTag(ty string, v interface{}) vcsvVal {
 }
 
 func vcsvExec(s vcsvScenario, render string, seq int) (res vcsvRun) {
+	s.Sep = vcsvSep(s.Sep)
 	res.Outcomes, res.Errors, res.Table, res.ColTypes = []string{}, []string{}, [][]vcsvVal{}, []int{}
 	defer func() {
 		if r := recover(); r != nil {
@@ -170,12 +182,16 @@ func vcsvExec(s vcsvScenario, render string, seq int) (res vcsvRun) {
 	}
 	rm := sess.RelationService
 
-	cfg := importCfg{db: db, table: "t", separator: []rune(s.Sep)[0], srcCols: s.Src}
+	// the configuration as main() builds it: from the command-line flags, through makeConfig
+	var dst, src []string
 	for _, d := range s.Dst {
-		cfg.dstCols = append(cfg.dstCols, fmt.Sprintf("c%d", d))
+		dst = append(dst, fmt.Sprintf("c%d", d))
 	}
-	var err error
-	cfg.colTypes, err = colDataTypes(rm, cfg.table, cfg.dstCols)
+	for _, c := range s.Src {
+		src = append(src, strconv.Itoa(c))
+	}
+	*cfgDb, *cfgTable, *cfgSep, *cfgDestCols, *cfgSrcCols = db, "t", s.Sep, strings.Join(dst, ","), strings.Join(src, ",")
+	cfg, err := makeConfig(rm)
 	if err != nil || len(cfg.colTypes) != len(cfg.dstCols) {
 		res.Fail = fmt.Sprintf("colDataTypes: %v (%d types)", err, len(cfg.colTypes))
 		return
